@@ -13,15 +13,17 @@ pub fn params(tier: &str) -> Vec<(usize, usize)> {
     if tier == "mini" { vec![(1, 1)] } else if tier == "quick" { vec![(3, 1), (1, 2)] } else { vec![(4, 1), (2, 2), (1, 3)] }
 }
 
+pub fn deep_doc_limit(tier: &str, depth: usize) -> usize { if tier == "thorough" { if depth >= 3 { 5 } else { 12 } } else { 4 } }
+
 pub fn meta(tier: &str) -> CheckMeta {
     let passes = params(tier);
     let (k, d) = (passes[0].0, passes.last().unwrap().1);
     CheckMeta {
         id: "C10", level: "model_checking",
-        rule: "E-box + E-hist: for every tree (seeds + all strings of <=k lexemes per zoo language, valid and erroneous) and EVERY edit (start, old_len, inserted in {'', 'x', 'xy', LF, 'x LF y'}) with start+old_len <= len, and BFS over sequences of such edits without re-parsing (state key = internal tree hash, hook H2): lock-step comparison of the tree before and after Tree::edit against the text model (nodes ending before keep their range, nodes starting after are shifted to the model's bytes and points, overlapping nodes and all their ancestors report has_changes), plus Node::edit, InputEdit::edit_point/edit_range and Tree::included_ranges under the same mapping. Non-trivial = edit that overlaps at least one non-root node.",
+        rule: "E-box + E-hist: for every tree (seeds + all strings of <=k lexemes per zoo language, valid and erroneous) and EVERY edit (start, old_len, inserted in {'', 'x', 'xy', LF, 'x LF y', 15/16/17 x LF}) with start+old_len <= len, and BFS over sequences of such edits without re-parsing (state key = internal tree hash, hook H2): lock-step comparison of the tree before and after Tree::edit against the text model (nodes ending before keep their range, nodes starting after are shifted to the model's bytes and points, overlapping nodes and all their ancestors report has_changes), plus Node::edit, InputEdit::edit_point/edit_range and Tree::included_ranges under the same mapping. Non-trivial = edit that overlaps at least one non-root node.",
         assumptions: vec!["zero-width nodes on an edit boundary: only containment/ordering is asserted (the statement does not fix them)".into()],
         exhaustive: true,
-        bounds: json!({"passes_(doc_lexemes_k,edit_depth)": passes, "max_doc_lexemes_k": k, "max_edit_sequence_depth": d, "all_edits_up_to_bytes": 20, "seed_sub_box": "depth+1 on seeds of language #(seed mod N)"}),
+        bounds: json!({"passes_(doc_lexemes_k,edit_depth)": passes, "max_doc_lexemes_k": k, "max_edit_sequence_depth": d, "max_start_doc_bytes_for_depth_2_and_3": [deep_doc_limit(tier, 2), deep_doc_limit(tier, 3)], "all_deletion_lengths_up_to_bytes": 12, "deletion_lengths_beyond": [0, 1, 2, 5, 15, 16, 17], "seed_sub_box": "depth+1 on seeds of language #(seed mod N)"}),
     }
 }
 
@@ -29,11 +31,13 @@ fn case_json(lang: &str, doc: &[u8], path: &[Edit]) -> Value {
     json!({"lang": lang, "doc": crate::util::bytes_json(doc), "edits": path.iter().map(|e| e.to_json()).collect::<Vec<_>>()})
 }
 
-const INSERTS: [&[u8]; 5] = [b"", b"x", b"xy", b"\n", b"x\ny"];
+// "", one and two characters, a line break, text spanning lines, and runs of 15/16/17 line breaks (the row field of an
+// inline leaf is 4 bits wide)
+const INSERTS: [&[u8]; 8] = [b"", b"x", b"xy", b"\n", b"x\ny", b"\n\n\n\n\n\n\n\n\n\n\n\n\n\n\n", b"\n\n\n\n\n\n\n\n\n\n\n\n\n\n\n\n", b"\n\n\n\n\n\n\n\n\n\n\n\n\n\n\n\n\n"];
 
 fn edits_for(len: usize) -> Vec<Edit> {
     let mut v = vec![];
-    let lens: Vec<usize> = if len <= 20 { (0..=len).collect() } else { vec![0, 1, 2, 5] };
+    let lens: Vec<usize> = if len <= 12 { (0..=len).collect() } else { vec![0, 1, 2, 5, 15, 16, 17] };
     for start in 0..=len {
         for &ol in &lens {
             if start + ol > len { continue; }
@@ -232,6 +236,8 @@ pub fn worker(ctx: &Ctx, res: &mut ShardResult) {
             let info = build_info(z);
             let docs = crate::docs::docs(z, k);
             for (di, d) in docs.iter().enumerate() {
+                // deeper passes start from short documents only (the edit alphabet grows with the square of the text length)
+                if depth >= 2 && d.len() > deep_doc_limit(&ctx.tier, depth) { continue; }
                 idx += 1;
                 if !ctx.mine(idx) { continue; }
                 let extra = if !ctx.mini() && depth == 1 && (ctx.seed as usize) % nlang == li && di < z.seeds.len() && d.len() <= 10 { 1 } else { 0 };
